@@ -17,6 +17,9 @@ type retCase struct {
 	Freq     float64 `json:"cleanup_frequency"`
 	Payloads []int   `json:"payload_sizes"`
 	Restarts []int   `json:"restart_before"` // indices of publishes preceded by a close+reopen
+	// configuration changes at a restart: index of the publish -> the size / frequency the hub is reopened with
+	Resize map[int]uint64  `json:"resize,omitempty"`
+	Refreq map[int]float64 `json:"refreq,omitempty"`
 }
 
 func joinU(xs []uint64) string {
@@ -31,8 +34,9 @@ func joinU(xs []uint64) string {
 func runRetCase(c *h.Ctx, r *h.Report, cs retCase) {
 	dir := scratchDir()
 	defer os.RemoveAll(dir)
+	size, freq := cs.Size, cs.Freq
 	open := func() *mercure.BoltTransport {
-		t, err := mercure.NewBoltTransport(zapNop(), dir+"/h.db", "", cs.Size, cs.Freq)
+		t, err := mercure.NewBoltTransport(zapNop(), dir+"/h.db", "", size, freq)
 		if err != nil {
 			panic(err)
 		}
@@ -52,6 +56,14 @@ func runRetCase(c *h.Ctx, r *h.Report, cs retCase) {
 	for i, sz := range cs.Payloads {
 		if restart[i] {
 			t.Close()
+			if v, ok := cs.Resize[i]; ok {
+				size = v
+				lines = append(lines, h.Line("ret.resize", fmt.Sprint(v)))
+				impl = append(impl, "ok")
+			}
+			if v, ok := cs.Refreq[i]; ok {
+				freq = v
+			}
 			t = open()
 		}
 		if sz < 0 {
@@ -89,10 +101,12 @@ func runRetCase(c *h.Ctx, r *h.Report, cs retCase) {
 		if cs.Size > 0 && cs.Size < n {
 			minKept = cs.Size
 		}
+		changed := len(cs.Resize) > 0 || len(cs.Refreq) > 0 // the count clauses speak of one configuration
 		bad := ""
 		switch {
 		case !contiguous || !endsAtLast:
 			bad = "retained history is not a contiguous suffix"
+		case changed:
 		case uint64(len(seqs)) < minKept:
 			bad = fmt.Sprintf("retained %d < min(published, size) = %d", len(seqs), minKept)
 		case cs.Size == 0 && uint64(len(seqs)) != n:
@@ -130,6 +144,9 @@ func runRetCase(c *h.Ctx, r *h.Report, cs retCase) {
 	if len(cs.Restarts) > 0 {
 		r.Count("case:with-restart")
 	}
+	if len(cs.Resize) > 0 {
+		r.Count("case:restart-with-another-configuration")
+	}
 	if failed > 0 {
 		r.Count("case:with-failed-transaction")
 	}
@@ -139,7 +156,7 @@ func runRetCase(c *h.Ctx, r *h.Report, cs retCase) {
 }
 
 func runRetention(c *h.Ctx, r *h.Report) {
-	r.Rule = "publish histories on a real BoltTransport: size in {0,1,2,3,5,50} and, in one case out of eight, around the limits of the integer types (2^31-1 … 2^64-1), cleanup frequency in {0, 0.25, 0.5, 1} (the coin is the runtime's: the model runs as an acceptor — after every publish the bucket's sequence numbers, read back through a white-box accessor, must be one of the two outcomes 'cleanup ran' / 'cleanup skipped'), 5-120 publishes, payloads up to 8 KiB so keys span several B-tree pages, close+reopen in between, publications whose write transaction fails (oversized id) interleaved. The property's oracle (contiguous suffix ending at the last sequence, at least min(n,size) kept, exactly that many when cleanup always runs, size 0 keeps all) is evaluated on the implementation alone. Non-trivial = history in which one cleanup removed two or more keys; distinct by content."
+	r.Rule = "publish histories on a real BoltTransport: size in {0,1,2,3,5,50} and, in one case out of eight, around the limits of the integer types (2^31-1 … 2^64-1), cleanup frequency in {0, 0.25, 0.5, 1} (the coin is the runtime's: the model runs as an acceptor — after every publish the bucket's sequence numbers, read back through a white-box accessor, must be one of the two outcomes 'cleanup ran' / 'cleanup skipped'), 5-120 publishes, payloads up to 8 KiB so keys span several B-tree pages, close+reopen in between (one restart in three with ANOTHER size / cleanup frequency on the same file: contiguity must survive, the count clauses are then not evaluated), publications whose write transaction fails (oversized id) interleaved. The property's oracle (contiguous suffix ending at the last sequence, at least min(n,size) kept, exactly that many when cleanup always runs, size 0 keeps all) is evaluated on the implementation alone. Non-trivial = history in which one cleanup removed two or more keys; distinct by content."
 	if c.Replay != "" {
 		var rp struct {
 			Case retCase `json:"case"`
@@ -151,6 +168,9 @@ func runRetention(c *h.Ctx, r *h.Report) {
 	}
 	// corpus first
 	runRetCase(c, r, retCase{Size: 3, Freq: 0.5, Payloads: make([]int, 40)})
+	// a backlog older than the window at the moment cleanup runs on every publication: reopened with a smaller size
+	runRetCase(c, r, retCase{Size: 10, Freq: 1, Payloads: make([]int, 26), Restarts: []int{20}, Resize: map[int]uint64{20: 5}, Refreq: map[int]float64{20: 1}})
+	runRetCase(c, r, retCase{Size: 0, Freq: 1, Payloads: make([]int, 12), Restarts: []int{8}, Resize: map[int]uint64{8: 3}, Refreq: map[int]float64{8: 1}})
 	n := c.Scale(300, 4000)
 	for i := 0; i < n; i++ {
 		rr := c.Rand.Fork()
@@ -173,6 +193,13 @@ func runRetention(c *h.Ctx, r *h.Report) {
 			cs.Payloads = append(cs.Payloads, sz)
 			if rr.Chance(1, 25) {
 				cs.Restarts = append(cs.Restarts, k)
+				if rr.Chance(1, 3) { // reopened with another configuration on the same file
+					if cs.Resize == nil {
+						cs.Resize, cs.Refreq = map[int]uint64{}, map[int]float64{}
+					}
+					cs.Resize[k] = h.Pick(rr, []uint64{0, 1, 2, 3, 5, 8})
+					cs.Refreq[k] = h.Pick(rr, []float64{0, 0.5, 1, 1})
+				}
 			}
 		}
 		runRetCase(c, r, cs)
